@@ -19,6 +19,7 @@ import (
 	"os"
 	"reflect"
 	"strings"
+	"sync/atomic"
 
 	"github.com/hashicorp/eventlogger"
 	"github.com/hashicorp/eventlogger/filters/encrypt"
@@ -186,8 +187,30 @@ func process(f *encrypt.Filter, e *eventlogger.Event) (out *eventlogger.Event, e
 			panicked = p
 		}
 	}()
+	if e != nil && e.Formatted != nil {
+		e.FormattedAs("before-the-filter", []byte("original"))
+	}
 	out, err = f.Process(context.Background(), e)
+	if out != nil && out != e && e != nil {
+		// whatever later nodes store in the forwarded event must not show up in the event the filter was given
+		out.FormattedAs("after-the-filter", []byte("forwarded copy only"))
+		out.FormattedAs("before-the-filter", []byte("overwritten in the forwarded copy"))
+		_, leaked := e.Format("after-the-filter")
+		orig, _ := e.Format("before-the-filter")
+		if leaked || string(orig) != "original" {
+			formattedAliased.Add(1)
+		}
+	}
 	return
+}
+
+// formattedAliased counts runs in which the forwarded event shared its format table with the original.
+var formattedAliased atomic.Int64
+
+func reportAliasing(rep *Report) {
+	if n := formattedAliased.Swap(0); n > 0 {
+		rep.mm(Mismatch{Props: []string{"C10"}, What: "the forwarded event shares its Formatted table with the event the filter was given: what a later node stores shows up in the original", Vector: fmt.Sprintf("%d runs", n), Expected: "private copy", Observed: "shared map"})
+	}
 }
 
 // ---------------------------------------------------------------- Policy vectors
@@ -396,6 +419,7 @@ func RunPolicy(file string, seed int64) (*Report, error) {
 		}
 		return nil
 	})
+	reportAliasing(rep)
 	return rep, err
 }
 
@@ -618,5 +642,6 @@ func RunWalk(file string, seed int64) (*Report, error) {
 		}
 		return nil
 	})
+	reportAliasing(rep)
 	return rep, err
 }
